@@ -1601,3 +1601,7 @@ def obligations(tier):
     obs.append(Ob("O3v", o3v_vector_helpers, "getSemiMajorAxis / getAngularMomentum / getEccentricity / getLineOfNodes on interface states in general position", 300))
     obs.append(Ob("O3a", o3a_coe2eci, "coe2eci has the interface form (rho, vr, vt; raan, inc, argp+nu); closing scalar relations", 180))
     return obs
+
+
+ASSUMPTIONS.append("numpy.isclose / numpy.allclose / math.isclose, wherever the orbit modules bind them, are their defining formulas in exact real arithmetic (a tolerance snap is a branch the solver sees)")
+OUTSIDE.append("angle values within 1e-4 of a full turn as concrete replay inputs: the angle algebra relates an angle to its cosine/sine by range and turn count only, so a counterexample that needs the value itself that close to 2 pi is found by the solver but does not concretise (reported as a harness error, not as a violation)")
